@@ -1,7 +1,7 @@
 #!/bin/bash
 # tools/runall.sh [tier] : run every claimed check, print exit status, VIOLATION count and wall time
 tier=${1:-quick}
-cd /verif
+cd "$(dirname "$0")/.."
 for id in $(python3 -c "import json;print(' '.join(c['property_id'] for c in json.load(open('MANIFEST.json'))['checks']))"); do
   s=$(date +%s)
   out=$(./check $id --tier $tier 2>&1); rc=$?
